@@ -788,6 +788,10 @@ func (p *Parser) parseContentLength() (err error) {
 				break
 			}
 		}
+		// 1*DIGIT: ParseInt would accept a sign.
+		if cl[0] == '+' || cl[0] == '-' {
+			return fmt.Errorf("%s %q", "bad Content-Length", cl)
+		}
 		l, err := strconv.ParseInt(cl, 10, 63)
 		if err != nil {
 			return fmt.Errorf("%s %q", "bad Content-Length", cl)
